@@ -61,6 +61,24 @@ theorem F4_witness :
     (wF4.verifyRef Variant.current mainRef).isOk = false ∧
     (wF4.verifyRefFull { Variant.current with f4_inRangeNotSelfVerified := false } mainRef).isOk = false := by decide
 
+/-- F63: a file rule protects `src/*` (key 3), an unrelated global rule exists; one commit by key 2
+changes `README` (unprotected, checked first) and `src/x`.  The exhaustive verifier "verifies" the
+unprotected path, becomes the trusted verifier of the commit, and the protected path is waved through. -/
+def wFile63 : RuleFile := ⟨"targets", 1, [⟨1002, false, [2], []⟩, ⟨1003, false, [3], []⟩],
+  [⟨"protect-main", ["git:refs/heads/main"], [1002], 1, false⟩, ⟨"protect-src", ["file:src/*"], [1003], 1, false⟩, allowRule], [1]⟩
+def wF63 : World := {
+  trees := [[("README", 1), ("src/x", 2)]], commits := [⟨[], 0, some 2⟩],
+  policies := [⟨{ wRoot with globals := [⟨"unrelated", true, ["git:refs/heads/unrelated"], 1⟩] }, [wFile63]⟩], atts := [],
+  log := [polEntry 0, push 0 2] }
+
+theorem F63_witness :
+    wF63.verifyRefFull { Variant.good with f63_trustExhaustive := true } mainRef = .ok (some 0) ∧
+    wF63.c01Sound mainRef (some 0) = false ∧
+    (wF63.verifyRefFull Variant.good mainRef).isOk = false ∧
+    -- without the global rule the defect does not arise
+    (({ wF63 with policies := [⟨wRoot, [wFile63]⟩] } : World).verifyRefFull
+        { Variant.good with f63_trustExhaustive := true } mainRef).isOk = false := by decide
+
 /-- a history produced only by authorized actors verifies, and the property holds of it (non-vacuity) -/
 def wGood : World := {
   trees := [[("README", 1)], [("README", 2)]], commits := [⟨[], 0, some 2⟩, ⟨[0], 1, some 2⟩],
